@@ -11,8 +11,8 @@ import time
 from . import kani, registry, census, replay, findings
 
 VERIF = kani.VERIF
-TOTAL_MEM_GB = float(os.environ.get("VERIF_MEM_GB", "46"))
-MAX_JOBS = int(os.environ.get("VERIF_JOBS", "11"))
+TOTAL_MEM_GB = float(os.environ.get("VERIF_MEM_GB", "50"))
+MAX_JOBS = int(os.environ.get("VERIF_JOBS", "13"))
 # campaign aid: stop launching solver runs once one has produced a counterexample tagged with the property
 FAIL_FAST = os.environ.get("VERIF_FAIL_FAST", "") != ""
 
@@ -65,10 +65,11 @@ class MemScheduler:
             self.cv.notify_all()
 
 
-def run_jobs(jobs, tier, use_cache, progress=True, pid=None):
+def run_jobs(jobs, tier, use_cache, progress=True, pid=None, known=None):
     sched = MemScheduler(TOTAL_MEM_GB, MAX_JOBS)
     results = []
     lock = threading.Lock()
+    confirm_lock = threading.Lock()
     done = [0]
     stop = [False]
 
@@ -86,9 +87,20 @@ def run_jobs(jobs, tier, use_cache, progress=True, pid=None):
                  "wall_s": 0.0, "verification_time_s": None, "encoding": None}
         finally:
             sched.release(h["weight"])
-        if FAIL_FAST and pid and r.get("status") == "fail" and h["expect"] != "twin" and any(
-                pid in attribute(h, fc) for fc in r.get("failed_checks", [])):
-            stop[0] = True
+        # a counterexample tagged with this property is lifted and replayed natively right away (the replay
+        # binaries are being built in the background since the start of the check); a confirmed violation
+        # decides the check, so the remaining queries are not started
+        if pid and r.get("status") == "fail" and h["expect"] != "twin" and not stop[0]:
+            mine = [fc for fc in r.get("failed_checks", []) if pid in attribute(h, fc)]
+            if mine:
+                with confirm_lock:
+                    if not stop[0]:
+                        try:
+                            r["confirm"] = replay.confirm(pid, h, cfg, r, mine, known or [])
+                        except Exception as e:  # pragma: no cover
+                            r["confirm"] = [("inconclusive", None, "replay failed: %r" % (e,))]
+                        if any(k == "violation" for k, _, _ in r["confirm"]) or FAIL_FAST:
+                            stop[0] = True
         with lock:
             done[0] += 1
             if progress:
@@ -104,7 +116,7 @@ def run_jobs(jobs, tier, use_cache, progress=True, pid=None):
             if res[2] is not None:
                 results.append(res)
     if stop[0]:
-        print(f"  fail-fast: stopped after the first counterexample ({len(results)} of {len(jobs)} queries run)", flush=True)
+        print(f"  stopped after a natively confirmed counterexample ({len(results)} of {len(jobs)} queries run)", flush=True)
     return results
 
 
@@ -128,23 +140,30 @@ def main(argv=None):
         print(f"property {pid} is not applicable to this technique family (see DESIGN.md §9)")
         return 0
 
-    hs = registry.by_property(pid, args.tier)
+    left_out = []
+    if args.tier == "quick":
+        jobs, left, est = registry.quick_selection(pid, seed)
+        left_out = ["%s[%s]" % (h["name"], cfg) for h, cfg in left]
+    else:
+        jobs = [(h, cfg) for h in registry.by_property(pid, args.tier) for cfg in h["cfgs"]]
     if args.only:
-        hs = [h for h in hs if re.search(args.only, h["name"])]
-    if not hs:
+        jobs = [(h, cfg) for h, cfg in jobs if re.search(args.only, h["name"])]
+    if not jobs:
         print(f"no harness registered for {pid}")
         return 2
-    jobs = [(h, cfg) for h in hs for cfg in h["cfgs"]]
+    hs = {h["name"] for h, _ in jobs}
     print(f"check {pid} tier={args.tier}: {len(hs)} harnesses, {len(jobs)} solver queries "
-          f"(encodings regenerated from {kani.REPO})", flush=True)
+          f"(encodings regenerated from {kani.REPO})" + (f"; {len(left_out)} secondary queries left to other seeds / the thorough tier by the time budget" if left_out else ""), flush=True)
+    # native replay binaries are (re)built from the current tree in the background
+    threading.Thread(target=replay.build, daemon=True).start()
 
     cen = census.scan()
     # thorough ignores the verdict store (and refreshes it); quick reuses a verdict only for a
     # byte-identical encoding produced from the current tree
     use_cache = (not args.no_cache) and args.tier == "quick" and os.environ.get("VERIF_NO_CACHE", "") == ""
-    results = run_jobs(jobs, args.tier, use_cache, pid=pid)
-
     known = findings.load()
+    results = run_jobs(jobs, args.tier, use_cache, pid=pid, known=known)
+
     violations, inconclusive, known_hits, other_fail = [], [], [], []
     samples = []
     obligations = discharged = 0
@@ -209,7 +228,9 @@ def main(argv=None):
             "failed_checks": [fc["desc"] for fc in r.get("failed_checks", [])][:8],
         })
         if mine:
-            out = replay.confirm(pid, h, cfg, r, mine, known)
+            out = r.get("confirm")
+            if out is None:
+                out = [("inconclusive", None, "counterexample not replayed (the check was already decided by another query)")] if violations else replay.confirm(pid, h, cfg, r, mine, known)
             for kind, path, msg in out:
                 if kind == "violation":
                     violations.append((h, cfg, path, msg))
@@ -253,6 +274,7 @@ def main(argv=None):
                 "verdicts_reused_identical_encoding": reused,
                 "solver_time_s": round(solver_s, 1),
                 "uncovered_sites": unc,
+                "quick_tier_left_out_for_time_budget": left_out,
                 "census": census.summary(cen),
                 "other_property_failures_seen": other_fail[:20],
                 "known_findings_matched": sorted(set(known_hits)),
